@@ -53,12 +53,93 @@ type injection struct {
 	Ent int // miss: the entity left out
 }
 
+// special: item Item (declared number) publishes, for its DECLARED entity Ent at commit index K (-1: at every step),
+// not a digest but the special-but-legal Go value number Code (specialValue): the untyped nil interface, typed nil
+// slices / maps / pointers, "", 0, false, an empty slice, uint64(0).  A value is a value: Run must store it under the
+// key, the downstream items must find exactly it, and nothing is "missing".
+type special struct{ Item, Ent, K, Code int }
+
+// specBase + code is how a special value is written in the trace (digests are < mixMod = 2^31-1)
+const specBase = 3000000000
+
+const numSpecialCodes = 9
+
+func specialValue(code int) interface{} {
+	switch code {
+	case 1:
+		return nil // the untyped nil interface
+	case 2:
+		return []string(nil)
+	case 3:
+		return map[string]int(nil)
+	case 4:
+		return (*base)(nil)
+	case 5:
+		return ""
+	case 6:
+		return 0
+	case 7:
+		return false
+	case 8:
+		return []int{}
+	}
+	return uint64(0) // code 9: an ordinary value at the end of the domain
+}
+
+// specialCode recognises the values of specialValue (uint64 values are ordinary and handled by the callers)
+func specialCode(v interface{}) (uint64, bool) {
+	if v == nil {
+		return 1, true
+	}
+	switch x := v.(type) {
+	case []string:
+		if x == nil {
+			return 2, true
+		}
+	case map[string]int:
+		if x == nil {
+			return 3, true
+		}
+	case *base:
+		if x == nil {
+			return 4, true
+		}
+	case string:
+		if x == "" {
+			return 5, true
+		}
+	case int:
+		if x == 0 {
+			return 6, true
+		}
+	case bool:
+		if !x {
+			return 7, true
+		}
+	case []int:
+		if x != nil && len(x) == 0 {
+			return 8, true
+		}
+	}
+	return 0, false
+}
+
 type shared struct {
 	log      []Sx
 	nextID   int
 	inj      injection
 	injErr   error
 	commitID map[string]int
+	specials []special
+}
+
+func (sh *shared) specialFor(item, ent int, idx uint64) (int, bool) {
+	for _, sp := range sh.specials {
+		if sp.Item == item && sp.Ent == ent && (sp.K < 0 || uint64(sp.K) == idx) {
+			return sp.Code, true
+		}
+	}
+	return 0, false
 }
 
 func entName(e int) string { return "e" + strconv.Itoa(e) }
@@ -140,7 +221,12 @@ func (b *base) Requires() []string {
 }
 func (b *base) ListConfigurationOptions() []hercules.ConfigurationOption { return nil }
 func (b *base) Configure(facts map[string]interface{}) error             { return nil }
-func (b *base) Initialize(*git.Repository) error                         { return nil }
+
+// Initialize starts a new analysis: the per-object counters are reset (a re-initialised pipeline must behave like a new one)
+func (b *base) Initialize(*git.Repository) error {
+	b.calls, b.hcalls = 0, 0
+	return nil
+}
 
 func (b *base) depSx(deps map[string]interface{}) Sx {
 	type kv struct {
@@ -156,6 +242,10 @@ func (b *base) depSx(deps map[string]interface{}) Sx {
 			continue
 		}
 		var sv Sx
+		if code, ok := specialCode(v); ok && e >= 3 {
+			l = append(l, kv{e, U64(specBase + code)})
+			continue
+		}
 		switch x := v.(type) {
 		case *object.Commit:
 			if id, ok := b.sh.commitID[x.Hash.String()]; ok {
@@ -206,6 +296,8 @@ func (b *base) Consume(deps map[string]interface{}) (map[string]interface{}, err
 		if present {
 			if u, ok := v.(uint64); ok {
 				x = u + 2
+			} else if code, ok := specialCode(v); ok {
+				x = specBase + code + 2
 			} else {
 				x = 1
 			}
@@ -230,6 +322,16 @@ func (b *base) Consume(deps map[string]interface{}) (map[string]interface{}, err
 			continue
 		}
 		v := mix(dig, uint64(e))
+		if code, ok := sh.specialFor(b.spec.Name, e, idx); ok {
+			upd[entName(e)] = specialValue(code)
+			if code != 9 {
+				v = specBase + uint64(code)
+			} else {
+				v = 0
+			}
+			outs = append(outs, L(I(e), U64(v)))
+			continue
+		}
 		upd[entName(e)] = v
 		outs = append(outs, L(I(e), U64(v)))
 	}
@@ -372,6 +474,10 @@ type caseIn struct {
 	Inj     injection
 	Commits []commitSpec
 	PA      bool // facts[ConfigPipelinePrintActions]
+	// Specials: special-but-legal values published for declared entities (field special; see type special)
+	Specials []special
+	// Runs: kinds reuse-*: the runs of ONE Pipeline object, in order (reuse.go); empty: a single run of everything
+	Runs []runSpec
 }
 
 var missRe = regexp.MustCompile(`^(?:it(\d+)|(n\d+)): Consume\(\) did not return e(\d+)$`)
@@ -383,8 +489,23 @@ type planLine struct {
 	hash  string
 }
 
-func runCase(in caseIn) (obs []Sx, nt bool, fatal error) {
-	// repository
+// session: one repository, one Pipeline object and one set of item instances; run() may be called several times
+// (kinds reuse-*: the same objects analyse several commit selections, one after the other).
+type session struct {
+	in       caseIn
+	sh       *shared
+	commits  []*object.Commit // all commits of the repository, in the order of in.Commits
+	byHash   map[string]*object.Commit
+	pipeline *hercules.Pipeline
+	resolved []hercules.PipelineItem
+	order    []int
+	// the options in force (a run without Initialize keeps those of the run before)
+	dist     int
+	pa, dump bool
+	ready    bool
+}
+
+func newSession(in caseIn) *session {
 	specs := make([]synth.CommitSpec, len(in.Commits))
 	index := map[int]int{}
 	for i, c := range in.Commits {
@@ -402,27 +523,61 @@ func runCase(in caseIn) (obs []Sx, nt bool, fatal error) {
 			Files: []synth.FileSpec{{Path: "f", Data: []byte(fmt.Sprintf("%d\n", c.ID))}}}
 	}
 	repo, commits := synth.BuildRepo(specs)
-	sh := &shared{inj: in.Inj, injErr: errors.New("injected"), commitID: map[string]int{}}
-	byHash := map[string]*object.Commit{}
+	s := &session{in: in, commits: commits, byHash: map[string]*object.Commit{}}
+	s.sh = &shared{inj: in.Inj, injErr: errors.New("injected"), commitID: map[string]int{}, specials: in.Specials}
 	for i, c := range commits {
-		sh.commitID[c.Hash.String()] = in.Commits[i].ID
-		byHash[c.Hash.String()] = c
+		s.sh.commitID[c.Hash.String()] = in.Commits[i].ID
+		s.byHash[c.Hash.String()] = c
 	}
-	pipeline := hercules.NewPipeline(repo)
-	var all []hercules.PipelineItem
-	for _, s := range in.Items {
-		it := newItem(sh, s)
-		all = append(all, it)
-		pipeline.AddItem(it)
+	s.pipeline = hercules.NewPipeline(repo)
+	for _, spec := range in.Items {
+		s.pipeline.AddItem(newItem(s.sh, spec))
 	}
-	facts := map[string]interface{}{
-		hercules.ConfigPipelineCommits:  commits,
-		vc14.ConfigHibernationDistance:  in.Dist,
-		hercules.ConfigLogger:           nopLogger{},
-		hercules.ConfigPipelineDumpPlan: true,
+	return s
+}
+
+// runSpec says how the session's objects are prepared for one Run and what is handed to it.
+type runSpec struct {
+	// Mode 0: Pipeline.Initialize(facts) and then Run; 1: no Initialize - the harness resets the counters of the original
+	// item instances by hand and calls Run again (options as in the run before); 3: Initialize twice, then Run
+	Mode int
+	Dist int
+	PA   bool
+	// Dump: Pipeline.DumpPlan.  Off: the executed plan is read from what PrintActions prints (PA is forced on), which is
+	// complete only when Run returned a result; such runs carry no injection
+	Dump bool
+	Inj  injection
+	Sel  []int // ids of the commits handed to Run, in slice order; nil: all of them
+}
+
+func runCase(in caseIn) (obs []Sx, nt bool, fatal error) {
+	return newSession(in).run(runSpec{Dist: in.Dist, PA: in.PA, Dump: true, Inj: in.Inj})
+}
+
+func (s *session) run(rs runSpec) (obs []Sx, nt bool, fatal error) {
+	in, sh, pipeline, byHash := s.in, s.sh, s.pipeline, s.byHash
+	commits := s.commits
+	ids := make([]int, len(in.Commits))
+	for i, c := range in.Commits {
+		ids[i] = c.ID
 	}
-	if in.PA {
-		facts["Pipeline.PrintActions"] = true // core.ConfigPipelinePrintActions (not re-exported by the root package)
+	if rs.Sel != nil {
+		pos := map[int]int{}
+		for i, c := range in.Commits {
+			pos[c.ID] = i
+		}
+		commits, ids = nil, nil
+		for _, id := range rs.Sel {
+			if i, ok := pos[id]; ok {
+				commits = append(commits, s.commits[i])
+				ids = append(ids, id)
+			}
+		}
+	}
+	sh.log = nil
+	sh.inj = rs.Inj
+	if !s.ready && rs.Mode == 1 {
+		rs.Mode = 0
 	}
 	// the lines that arrive before the first call of an item are the plan dump of prepareRunPlan (Run clones the
 	// items right after it); with PrintActions, Run prints every action again just before it executes it
@@ -445,28 +600,54 @@ func runCase(in caseIn) (obs []Sx, nt bool, fatal error) {
 		}
 	})
 	defer vc14.SetPlanPrinter(old)
-	var ierr error
-	if _, p := Catch(func() { ierr = pipeline.Initialize(facts) }); p || ierr != nil {
-		// resolve() rejected the pipeline (or panicked: known findings C10-K1/K2 about doubly provided entities): outside C14
-		if os.Getenv("C14_DEBUG") != "" {
-			fmt.Fprintln(os.Stderr, "initfail:", p, ierr)
+	if rs.Mode == 1 {
+		for _, it := range s.resolved {
+			b := it.(based).b()
+			b.calls, b.hcalls = 0, 0
 		}
-		return []Sx{T("initfail")}, false, nil
+	} else {
+		s.dist, s.pa, s.dump = rs.Dist, rs.PA || !rs.Dump, rs.Dump
+		facts := map[string]interface{}{
+			hercules.ConfigPipelineCommits:  commits,
+			vc14.ConfigHibernationDistance:  s.dist,
+			hercules.ConfigLogger:           nopLogger{},
+			hercules.ConfigPipelineDumpPlan: s.dump,
+		}
+		if s.pa {
+			facts["Pipeline.PrintActions"] = true // core.ConfigPipelinePrintActions (not re-exported by the root package)
+		}
+		var ierr error
+		_, p := Catch(func() {
+			ierr = pipeline.Initialize(facts)
+			if ierr == nil && rs.Mode == 3 {
+				ierr = pipeline.Initialize(facts)
+			}
+		})
+		if p || ierr != nil {
+			// resolve() rejected the pipeline (or panicked: known findings C10-K1/K2 about doubly provided entities): outside C14
+			if os.Getenv("C14_DEBUG") != "" {
+				fmt.Fprintln(os.Stderr, "initfail:", p, ierr)
+			}
+			s.ready = false
+			return []Sx{T("initfail")}, false, nil
+		}
+		s.ready = true
+		s.resolved = pipeline.VerifItems()
+		s.order = make([]int, len(s.resolved))
+		for j, it := range s.resolved {
+			b := it.(based).b()
+			b.pos, b.id = j, j
+			s.order[j] = b.spec.Name
+		}
+		if pipeline.HibernationDistance != s.dist {
+			return nil, false, fmt.Errorf("hibernation distance not taken from the facts")
+		}
+		if pipeline.PrintActions != s.pa || pipeline.DumpPlan != s.dump {
+			return nil, false, fmt.Errorf("PrintActions / DumpPlan not taken from the facts")
+		}
 	}
-	resolved := pipeline.VerifItems()
-	order := make([]int, len(resolved))
-	for j, it := range resolved {
-		b := it.(based).b()
-		b.pos, b.id = j, j
-		order[j] = b.spec.Name
-	}
+	resolved, order := s.resolved, s.order
 	sh.nextID = len(resolved)
-	if pipeline.HibernationDistance != in.Dist {
-		return nil, false, fmt.Errorf("hibernation distance not taken from the facts")
-	}
-	if pipeline.PrintActions != in.PA {
-		return nil, false, fmt.Errorf("PrintActions not taken from the facts")
-	}
 
 	var result map[hercules.LeafPipelineItem]interface{}
 	var err error
@@ -478,10 +659,17 @@ func runCase(in caseIn) (obs []Sx, nt bool, fatal error) {
 	// boot lines show only their first item, so these actions are re-inserted by the deterministic
 	// insertHibernateBoot and compared with the dump; an emerge carries the commit of the commit action
 	// that follows it
+	lines := dump
+	noplan := false
+	if !s.dump {
+		// no dump: what PrintActions printed is the executed plan, complete iff Run came to its end
+		lines = printed
+		noplan = panicked || err != nil
+	}
 	var plan []verifapi.VerifAction
-	if len(dump) > 0 {
+	if len(lines) > 0 && !noplan {
 		var nohb []verifapi.VerifAction
-		for i, l := range dump {
+		for i, l := range lines {
 			switch l.kind {
 			case "C":
 				c := byHash[l.hash]
@@ -497,21 +685,21 @@ func runCase(in caseIn) (obs []Sx, nt bool, fatal error) {
 				nohb = append(nohb, verifapi.VerifAction{Action: verifapi.ActionDelete, Items: l.items})
 			case "E":
 				// generatePlan emits the emerge of a root immediately before that root's commit action
-				if i+1 >= len(dump) || dump[i+1].kind != "C" || dump[i+1].items[0] != l.items[0] {
+				if i+1 >= len(lines) || lines[i+1].kind != "C" || lines[i+1].items[0] != l.items[0] {
 					return nil, false, fmt.Errorf("emerge action %d is not followed by the commit of its root", i)
 				}
-				nohb = append(nohb, verifapi.VerifAction{Action: verifapi.ActionEmerge, Commit: byHash[dump[i+1].hash], Items: l.items})
+				nohb = append(nohb, verifapi.VerifAction{Action: verifapi.ActionEmerge, Commit: byHash[lines[i+1].hash], Items: l.items})
 			}
 		}
 		plan = nohb
-		if in.Dist > 0 {
-			plan = verifapi.InsertHibernateBoot(nohb, in.Dist)
+		if s.dist > 0 {
+			plan = verifapi.InsertHibernateBoot(nohb, s.dist)
 		}
-		if len(plan) != len(dump) {
-			return nil, false, fmt.Errorf("reconstructed plan has %d actions, the dump %d", len(plan), len(dump))
+		if len(plan) != len(lines) {
+			return nil, false, fmt.Errorf("reconstructed plan has %d actions, the dump %d", len(plan), len(lines))
 		}
 		for i, a := range plan {
-			l := dump[i]
+			l := lines[i]
 			k := map[int]string{verifapi.ActionCommit: "C", verifapi.ActionFork: "F", verifapi.ActionMerge: "M",
 				verifapi.ActionEmerge: "E", verifapi.ActionDelete: "D", verifapi.ActionHibernate: "H", verifapi.ActionBoot: "B"}[a.Action]
 			same := k == l.kind
@@ -590,24 +778,32 @@ func runCase(in caseIn) (obs []Sx, nt bool, fatal error) {
 	}
 	nt = len(resolved) >= 2 && ncommitSteps >= 2
 	// the committer times as Run reads them (after the round trip through the object store)
-	tsx := make([]Sx, len(commits))
-	for i, cm := range commits {
+	tsx := make([]Sx, len(s.commits))
+	for i, cm := range s.commits {
 		tsx[i] = L(I(in.Commits[i].ID), I64(cm.Committer.When.Unix()))
 	}
 	obs = []Sx{T("order", Ints(order).List...), T("times", tsx...), T("plan", psx...), T("log", sh.log...), res}
+	if noplan {
+		obs = append(obs, T("noplan"))
+	}
 	// PrintActions: what Run printed must be the executed prefix of the dumped plan (all of it when Run returned a result);
 	// without the option nothing is printed after the dump
-	printOK := len(printed) <= len(dump)
-	for i := 0; printOK && i < len(printed); i++ {
-		printOK = printed[i].kind == dump[i].kind && fmt.Sprint(printed[i].items) == fmt.Sprint(dump[i].items) && printed[i].hash == dump[i].hash
-	}
-	if in.PA {
-		printOK = printOK && (len(printed) >= 1 || len(dump) == 0) && (panicked || err != nil || len(printed) == len(dump))
-	} else {
-		printOK = len(printed) == 0
-	}
-	if !printOK {
-		obs = append(obs, T("printbad", I(len(printed)), I(len(dump))))
+	if s.dump {
+		printOK := len(printed) <= len(dump)
+		for i := 0; printOK && i < len(printed); i++ {
+			printOK = printed[i].kind == dump[i].kind && fmt.Sprint(printed[i].items) == fmt.Sprint(dump[i].items) && printed[i].hash == dump[i].hash
+		}
+		if s.pa {
+			printOK = printOK && (len(printed) >= 1 || len(dump) == 0) && (panicked || err != nil || len(printed) == len(dump))
+		} else {
+			printOK = len(printed) == 0
+		}
+		if !printOK {
+			obs = append(obs, T("printbad", I(len(printed)), I(len(dump))))
+		}
+	} else if len(dump) > 0 {
+		// DumpPlan is off: nothing may be printed before the first item call
+		obs = append(obs, T("printbad", I(-1), I(len(dump))))
 	}
 	return obs, nt, nil
 }
@@ -632,7 +828,23 @@ func (in caseIn) fields() []Sx {
 	if in.PA {
 		fs = append(fs, T("pa", I(1)))
 	}
-	return append(fs, T("commits", cs...))
+	if len(in.Specials) > 0 {
+		sp := make([]Sx, len(in.Specials))
+		for i, x := range in.Specials {
+			sp[i] = L(I(x.Item), I(x.Ent), I(x.K), I(x.Code))
+		}
+		fs = append(fs, T("special", sp...))
+	}
+	fs = append(fs, T("commits", cs...))
+	if len(in.Runs) > 0 {
+		rs := make([]Sx, len(in.Runs))
+		for i, r := range in.Runs {
+			rs[i] = T("run", I(r.Mode), I(r.Dist), B(r.PA), B(r.Dump),
+				T("inject", A(r.Inj.Kind), I(r.Inj.Item), I(r.Inj.K), I(r.Inj.Ent)), T("sel", Ints(r.Sel).List...))
+		}
+		fs = append(fs, T("runs", rs...))
+	}
+	return fs
 }
 
 func intsOf(s Sx) []int {
@@ -674,6 +886,23 @@ func parseCase(s Sx) caseIn {
 			in.Commits = append(in.Commits, commitSpec{ID: x.List[0].Int(), Time: t, Parents: intsOf(x.List[2])})
 		}
 	}
+	if f, ok := s.Field("special"); ok {
+		for _, x := range f.Args() {
+			in.Specials = append(in.Specials, special{Item: x.List[0].Int(), Ent: x.List[1].Int(), K: x.List[2].Int(), Code: x.List[3].Int()})
+		}
+	}
+	if f, ok := s.Field("runs"); ok {
+		for _, x := range f.Args() {
+			a := x.Args()
+			r := runSpec{Mode: a[0].Int(), Dist: a[1].Int(), PA: a[2].Int() != 0, Dump: a[3].Int() != 0, Sel: []int{}}
+			ia := a[4].Args()
+			r.Inj = injection{Kind: ia[0].Atom, Item: ia[1].Int(), K: ia[2].Int(), Ent: ia[3].Int()}
+			for _, y := range a[5].Args() {
+				r.Sel = append(r.Sel, y.Int())
+			}
+			in.Runs = append(in.Runs, r)
+		}
+	}
 	return in
 }
 
@@ -681,7 +910,14 @@ func emit(c *Config, in caseIn) {
 	if len(in.Items) == 0 {
 		return
 	}
-	obs, nt, fatal := runCase(in)
+	var obs []Sx
+	var nt bool
+	var fatal error
+	if len(in.Runs) > 0 {
+		obs, nt, fatal = runReuse(&in)
+	} else {
+		obs, nt, fatal = runCase(in)
+	}
 	if fatal != nil {
 		fmt.Fprintln(os.Stderr, "c14 harness:", fatal)
 		c.Close()
@@ -999,4 +1235,7 @@ func main() {
 	// input attributes of the pipelines (gen2.go) and the scale family (scale.go)
 	attrStreams(c)
 	scaleStreams(c)
+	// special-but-legal values of declared entities; one Pipeline object run on several commit selections (reuse.go)
+	specialStreams(c)
+	reuseStreams(c)
 }
